@@ -42,6 +42,8 @@ pub struct Obs {
     pub text: String,
     pub hash: u64,
     pub typed: Typed,
+    pub pubkey_uncompressed: Vec<u8>,
+    pub into_iter_pairs: Vec<(Vec<u8>, Vec<u8>)>,
 }
 
 impl Obs {
@@ -102,6 +104,8 @@ pub fn observe<K: EnrKey>(e: &Enr<K>) -> Result<Obs, String> {
             text: e.to_base64(),
             hash: fixed_hash(e),
             typed: typed(e),
+            pubkey_uncompressed: e.public_key().encode_uncompressed().as_ref().to_vec(),
+            into_iter_pairs: e.clone().into_iter().map(|(k, v)| (k, v.to_vec())).collect(),
         }
     })
 }
